@@ -19,7 +19,8 @@ import BdModel.Load.Decode
 namespace BdModel.Load
 
 /-- facts about strings that come from libraries outside the model (reported by the harness per case):
-    robfig/cron validity, `unix.SignalNum ≠ 0` -/
+    robfig/cron validity, `unix.SignalNum ≠ 0` (of the string exactly as given: the table knows only the
+    canonical upper-case `SIGxxx` names) -/
 structure Orc where
   cronOk : Str → Bool
   sigOk : Str → Bool
@@ -485,7 +486,11 @@ def condSafe (_c : Cond) : Bool := true
 def Dag.allSteps (d : Dag) : List Step :=
   d.steps ++ d.onExit.toList ++ d.onSuccess.toList ++ d.onFailure.toList ++ d.onCancel.toList
 
-/-- named steps, parseable schedules, valid signals (what the builder does enforce) -/
+/-- named steps, parseable schedules, valid signals. `s.signal` is the spelling STORED in `Step.SignalOnStop`
+    and `o.sigOk` is `unix.SignalNum(·) ≠ 0` of that very string — the call `scheduler.Node.signal` makes on the
+    stored name at stop time. So the clause says: every stored, non-empty stop signal resolves to a real signal
+    on the stop path (an empty one means "no override"). A loader that validates a canonicalised copy but stores
+    the spelling as written violates exactly this clause. -/
 def Dag.wellFormedCore (o : Orc) (d : Dag) : Prop :=
   (∀ s ∈ d.allSteps, s.name ≠ [] ∧ (s.signal = [] ∨ o.sigOk s.signal = true)) ∧
   (∀ e ∈ d.starts ++ d.stops ++ d.restarts, o.cronOk e = true ∧ cronPanics e = false)
